@@ -421,7 +421,7 @@ func (fx *FuncExec) applyContract(st *State, instr ssa.Instruction, fc *FuncCont
 		func() {
 			defer func() {
 				if r := recover(); r != nil {
-					if tl, ok := r.(toolLimitErr); ok && strings.Contains(tl.msg, "unknown identifier") {
+					if tl, ok := r.(toolLimitErr); ok && (strings.Contains(tl.msg, "unknown identifier") || strings.Contains(tl.msg, "no state labelled")) {
 						return
 					}
 					panic(r)
